@@ -63,3 +63,24 @@ contract(INDEX, 'LocMap.loc_to_iloc',
     ensures_variant={0: ['len(result) == len(key)', f'forall_in(0, len(key), lambda i: at(result, i) == ufi("pos", at(key, i)) + {_OFF})'],
                      1: [f'result == ufi("pos", key) + {_OFF}']},
     ensures=[])
+
+
+# ---- LocMap.bound_offset_slice: a slice inside ONE level of a hierarchy never reaches into its siblings ------------------------------
+# the level owns the positions [offset, offset + size); explicit bounds come from map_slice_args (already shifted by offset)
+contract(INDEX, 'LocMap.bound_offset_slice',
+    props=['C04', 'C05'],
+    params=dict(key='slice', offset='int', size='int'), order=['key', 'offset', 'size'], result='slice',
+    ghost_params=dict(N='int'),          # length of the whole axis
+    requires=['offset >= 0 and size >= 1 and offset + size <= N',
+              'is_none(key.step) or key.step != 0',
+              # explicit bounds lie inside the level: a start is a position of the level, a stop is one past a position of the level
+              'is_none(key.start) or (offset <= key.start and key.start < offset + size)',
+              'is_none(key.stop) or (offset < key.stop and key.stop <= offset + size)'],
+    ensures=[
+        'result.step == key.step',
+        # every position the result selects on the whole axis belongs to this level
+        'forall(lambda p: implies(0 <= p and p < N and in_slice(p, result, N), offset <= p and p < offset + size))',
+        # an open start begins at the level's own first (forward) / last (backward) position
+        'implies(is_none(key.start) and (is_none(key.step) or key.step > 0) and (is_none(key.stop) or key.stop > offset), in_slice(offset, result, N))',
+        'implies(is_none(key.start) and not is_none(key.step) and key.step < 0 and (is_none(key.stop) or key.stop < offset + size - 1), in_slice(offset + size - 1, result, N))',
+    ])
